@@ -1,6 +1,7 @@
 """C03 — every mutation is validated and failure-atomic."""
 import json
 from ..suites import mutate as S
+from ..suites import wrappedcoll as W
 from .. import dump
 
 ID = "C03"
@@ -136,7 +137,7 @@ def judge_postcheck(case, impl):
 
 def cases(rng, tier):
     return S.gen_cases(rng, tier, 500 if tier == "quick" else 6000, immutable=False) \
-        + postcheck_cases(rng, 300 if tier == "quick" else 5000)
+        + postcheck_cases(rng, 300 if tier == "quick" else 5000) + W.cases()
 
 
 def search_cases(rng, tier):
@@ -147,29 +148,41 @@ def _p(case):
     return case.get("suite") == "postcheck"
 
 
+def _w(case):
+    return case.get("suite") == "wrappedcoll"
+
+
 def run_impl(case):
+    if _w(case):
+        return W.run_impl(case)
     return run_postcheck(case) if _p(case) else S.run_impl(case)
 
 
 def line(case, impl):
-    return None if _p(case) else S.line(case, impl)
+    return None if _p(case) or _w(case) else S.line(case, impl)
 
 
 def tags(case, impl, model):
+    if _w(case):
+        return ["stream:wrappedcoll", "wrapped:" + case["shape"]] + [f"wrapped-op:{s['op']}:{s['out']}" for s in impl.get("steps", [])]
     if _p(case):
         return ["stream:postcheck"] + [f"postcheck:{s['kind']}:{s['out']}" for s in impl.get("steps", [])]
     return S.tags(case, impl, model) + (["hooked"] if case.get("hook") else [])
 
 
 def nontrivial(case):
-    return True if _p(case) else S.nontrivial(case)
+    return True if _p(case) or _w(case) else S.nontrivial(case)
 
 
 def describe(case, impl, model):
+    if _w(case):
+        return {"wrappedcoll": case, "steps": impl.get("steps")}
     return {"postcheck": case, "steps": impl.get("steps")} if _p(case) else S.describe(case, impl, model)
 
 
 def judge(case, impl, model):
+    if _w(case):
+        return None, W.judge(case, impl)
     if _p(case):
         return None, judge_postcheck(case, impl)
     msg = S.correspondence(case, impl, model)
